@@ -101,6 +101,7 @@ func hmapNamed(p *core.Program, name string) *types.Named {
 }
 
 func runC09(p *core.Program, r *core.Report) {
+	defer setLinkCanon(nil)
 	hmapProg = p
 	r.Explanation = "Structural invariants of the 13 linked hash collections, instantiated uniformly (siblings cross-checked by one rule table). Every insertion helper is enumerated as event paths per PUT_MODE (mode switches folded, bucket scan and eviction loops taken zero times or once). New-key paths: exactly one bucket insertion chained in front of the *current* bucket head, one link at the mode's end, one size increment; with a maximum, eviction from the opposite end in a `count >= max` loop (under max > 0) before inserting; growth test `count >= threshold` before inserting, and after rehash() the local table and index are recomputed. Existing-key paths: no size change, no eviction, no bucket insertion; a move to the stated end exactly for the forced modes, guarded by not-already-there. remove(): one bucket unlink, one size decrement, one order unlink on the found path and nothing otherwise. rehash(): 2n+1 buckets, threshold from the new capacity, every old bucket visited, re-bucketing with the same hash as lookups (or the hash cached at insertion from hash(key)). Whole-table walks cover exactly buckets 0..len-1. Enumerator constructors carry the discriminator of the constructing method. Sort = collect, sort.Sort, clear, re-insert at the tail. Bucket indices are non-negative."
 	r.NotDecided = []string{"equivalence with the reference dictionary over operation histories (return values, order after arbitrary histories)", "correctness of chain/unchain pointer surgery beyond being called with the right neighbours", "comparator laws of user-supplied sort functions"}
@@ -129,6 +130,7 @@ func runC09(p *core.Program, r *core.Report) {
 			r.Undec("C09.insert", "util/hmap."+n, "-", "type not found")
 			continue
 		}
+		setLinkCanon(t)
 		h := &hmapType{p: p, r: r, pre: "C09", t: t, name: "util/hmap." + n, linked: true, hasMax: structHasField(t, "max"), modes: modes}
 		h.checkInsertHelpers()
 		h.checkRemove()
@@ -147,6 +149,7 @@ func runC09(p *core.Program, r *core.Report) {
 }
 
 func runC12(p *core.Program, r *core.Report) {
+	defer setLinkCanon(nil)
 	hmapProg = p
 	r.Explanation = "Structural invariants of the four plain hash collections (IntIntMap, IntKeyMap, IntSet, StringSet), same rule table as C09 without the order list: insertion helpers (one bucket insertion in front of the current head, one size increment, growth test and recomputation after rehash), update-in-place without size change, remove (one unlink, one decrement on the found path only), rehash (2n+1, threshold, coverage, same hash as lookups), whole-table walks, non-negative bucket indices, and the serialised form of IntIntMap (ToBytes~ToObject wire agreement)."
 	r.NotDecided = []string{"equivalence with the mathematical map/set over histories", "enumeration completeness beyond the walk-coverage rule"}
@@ -169,6 +172,7 @@ func runC12(p *core.Program, r *core.Report) {
 			r.Undec("C12.insert", "util/hmap."+n, "-", "type not found")
 			continue
 		}
+		setLinkCanon(t)
 		h := &hmapType{p: p, r: r, pre: "C12", t: t, name: "util/hmap." + n, linked: false, hasMax: false, modes: modes} // plain types never evict (max only feeds IsFull)
 		h.checkInsertHelpers()
 		h.checkRemove()
